@@ -529,6 +529,21 @@ class Builder:
             raise Unsupported("no template field for '%s'" % s["tok"])
         d = self.gp_default()
         sl = p.slot("r%d" % i, [d] + self.gp_ids + ["zr", "sp"] + GP_BAD)
+        # a register of the other width (W <-> X) at a position where no form of the mnemonic takes that width: must be refused
+        wsl = None
+        if s["w"] in ("W", "X"):
+            other = "X" if s["w"] == "W" else "W"
+            exists = False
+            for f in list(self.siblings) + [self.form]:
+                sig = form_signature(f)
+                toks = split_top(sig) if sig else []
+                if i < len(toks):
+                    t = parse_token(toks[i])
+                    if t is None or t.get("k") != "gp" or t.get("w") in (other, "R"):
+                        exists = True
+                        break
+            if not exists:
+                wsl = p.slot("rw%d" % i, [0, 1])
         ext_slot = None
         if s["w"] == "R":
             if nxt is not None and nxt["k"] == "shift" and "extend" in nxt["ops"]:
@@ -538,9 +553,17 @@ class Builder:
             else:
                 raise Unsupported("R register without extend")
 
-        def fn(ctx, r, s=s, sl=sl, field=field, ext_slot=ext_slot):
+        def fn(ctx, r, s=s, sl=sl, field=field, ext_slot=ext_slot, wsl=wsl):
             v = ctx[sl]
             w = s["w"].lower()
+            if wsl is not None and ctx[wsl]:
+                w = "x" if w == "w" else "w"
+                r.add(gp_name(w, v, False), None)
+                r.expect.append((field, gp_field(v)))
+                r.ev.append("gpwidth:" + sl)
+                if gp_bad(v):
+                    r.ev.append("badid:" + sl)
+                return
             if w == "r":
                 w = "x"
                 if ext_slot:
